@@ -5,28 +5,84 @@ import (
 	"strings"
 )
 
+// declarationName returns the name declared on a line that starts with the given keywords
+// (e.g. "extend", "type"), and whether the line is such a declaration. The name ends at the first
+// whitespace or at the punctuation that may follow it (':' for relations, '(' for conditions).
+func declarationName(line string, keywords ...string) (string, bool) {
+	fields := strings.Fields(line)
+	if len(fields) <= len(keywords) {
+		return "", false
+	}
+
+	for index, keyword := range keywords {
+		if fields[index] != keyword {
+			return "", false
+		}
+	}
+
+	name := fields[len(keywords)]
+	if end := strings.IndexAny(name, ":(#"); end != -1 {
+		name = name[:end]
+	}
+
+	return name, true
+}
+
 func GetConditionLineNumber(conditionName string, lines []string) int {
 	return slices.IndexFunc(lines, func(line string) bool {
-		return strings.HasPrefix(strings.TrimSpace(line), "condition "+conditionName)
+		name, ok := declarationName(line, "condition")
+
+		return ok && name == conditionName
 	})
 }
 
 func GetTypeLineNumber(typeName string, lines []string) int {
 	return slices.IndexFunc(lines, func(line string) bool {
-		return strings.HasPrefix(strings.TrimSpace(line), "type "+typeName)
+		name, ok := declarationName(line, "type")
+
+		return ok && name == typeName
 	})
 }
 
 func GetExtendedTypeLineNumber(typeName string, lines []string) int {
 	return slices.IndexFunc(lines, func(line string) bool {
-		return strings.HasPrefix(strings.TrimSpace(line), "extend type "+typeName)
+		name, ok := declarationName(line, "extend", "type")
+
+		return ok && name == typeName
 	})
 }
 
 func GetRelationLineNumber(relation string, lines []string) int {
 	return slices.IndexFunc(lines, func(line string) bool {
-		return strings.HasPrefix(strings.TrimSpace(line), "define "+relation)
+		name, ok := declarationName(line, "define")
+
+		return ok && name == relation
 	})
+}
+
+// GetExtendedRelationLineNumber returns the line on which the relation is defined inside the
+// "extend type typeName" block, not a same-named relation of another type in the same file.
+func GetExtendedRelationLineNumber(typeName string, relation string, lines []string) int {
+	start := GetExtendedTypeLineNumber(typeName, lines)
+	if start == -1 {
+		return GetRelationLineNumber(relation, lines)
+	}
+
+	for index := start + 1; index < len(lines); index++ {
+		if _, ok := declarationName(lines[index], "type"); ok {
+			break
+		}
+
+		if _, ok := declarationName(lines[index], "extend", "type"); ok {
+			break
+		}
+
+		if name, ok := declarationName(lines[index], "define"); ok && name == relation {
+			return index
+		}
+	}
+
+	return -1
 }
 
 type StartEnd struct {
